@@ -1,0 +1,19 @@
+//! Verification hooks (compiled only with the `h2_verif` cargo feature). Add-only: nothing
+//! here changes behaviour; it re-exports internal HPACK items so that an
+//! external conformance harness can drive the real encoder / decoder.
+#![allow(missing_docs, missing_debug_implementations)]
+
+pub mod hpack {
+    pub use crate::hpack::{BytesStr, Decoder, DecoderError, Encoder, Header, NeedMore};
+
+    /// Huffman-encode `src`, appending to `dst` (RFC 7541 section 5.2).
+    pub fn huffman_encode(src: &[u8], dst: &mut bytes::BytesMut) {
+        crate::hpack::huffman::encode(src, dst)
+    }
+
+    /// Huffman-decode `src`.
+    pub fn huffman_decode(src: &[u8]) -> Result<bytes::BytesMut, DecoderError> {
+        let mut buf = bytes::BytesMut::new();
+        crate::hpack::huffman::decode(src, &mut buf)
+    }
+}
